@@ -842,10 +842,10 @@ async fn run(case: Json, tol: Tolerate, prop: &'static str) -> Outcome {
                 }
             }
         }
-        if prop != "C18" {
-            compared |= st.iter().any(|s| s.records > 1);
-            continue;
-        }
+        // the comparison with the RIB serves both properties: as the fold of C18, and as the
+        // "carries the intended BGP data" half of C19 (a record that parses, with the add-path
+        // setting it states, to other prefixes or attributes than were monitored)
+        let judge_pairing = prop == "C18";
 
         // ---- C18: caught-up stations against the RIB ----------------------------------------
         let mut rib_pre: BTreeMap<RKey, (RVal, bool)> = BTreeMap::new();
@@ -877,6 +877,7 @@ async fn run(case: Json, tol: Tolerate, prop: &'static str) -> Outcome {
                 let a = n.cfg.addr;
                 let est = n.spk.established();
                 match (est, s.up.contains_key(&a)) {
+                    (true, false) | (false, true) if !judge_pairing => continue,
                     (true, false) => {
                         let v = Violation::new("C18/pairing/peer-up-missing", format!("op {} {}: station {} (policy {}) has caught up but does not know established peer {}", opi, op.to_compact(), s.addr, s.policy, a));
                         if out.violate(&tol, v) {
@@ -910,13 +911,13 @@ async fn run(case: Json, tol: Tolerate, prop: &'static str) -> Outcome {
                     for (k, v) in &fresh {
                         match got_p.get(k) {
                             Some(g) if g == v => {}
-                            Some(g) => bad = Some((format!("C18/fold/{}/last-event-is-not-current-state", name), format!("{:?}: station holds {:?}, RIB holds {:?}", k, g, v))),
-                            None => bad = Some((format!("C18/fold/{}/update-missing", name), format!("{:?} is in the RIB but the station never learnt it (or was told to forget it)", k))),
+                            Some(g) => bad = Some((if judge_pairing { format!("C18/fold/{}/last-event-is-not-current-state", name) } else { format!("C19/content/{}/route-differs-from-what-was-monitored", name) }, format!("{:?}: station holds {:?}, RIB holds {:?}", k, g, v))),
+                            None => bad = Some((if judge_pairing { format!("C18/fold/{}/update-missing", name) } else { format!("C19/content/{}/monitored-route-not-in-any-record", name) }, format!("{:?} is in the RIB but the station never learnt it (or was told to forget it)", k))),
                         }
                     }
                     for (k, g) in &got_p {
                         if !fresh.contains_key(k) && !stale.contains(k) {
-                            bad = Some((format!("C18/fold/{}/phantom-route", name), format!("{:?}: station holds {:?}, the RIB has no such route", k, g)));
+                            bad = Some((if judge_pairing { format!("C18/fold/{}/phantom-route", name) } else { format!("C19/content/{}/record-decodes-to-a-route-that-was-not-monitored", name) }, format!("{:?}: station holds {:?}, the RIB has no such route", k, g)));
                         }
                     }
                     if let Some((class, d)) = bad {
